@@ -211,11 +211,26 @@ class Ctx:
             sync_alt_harness()
         lockp = os.path.join(HARNESS, 'Cargo.lock')
         with Lock('cargo'):
+            # the vendored C library of feel-number is compiled by a build script through `cc`, which declares its own rerun conditions: cargo does
+            # not notice an edited .c / .h file.  The compiled copy is dropped whenever the sources differ from the ones it was built from.
+            import hashlib
+            cdir = os.path.join(REPO, 'feel-number', 'decnumber')
+            h = hashlib.sha256()
+            for f in sorted(os.listdir(cdir)) if os.path.isdir(cdir) else []:
+                if f.endswith(('.c', '.h')):
+                    h.update(f.encode() + b'\0' + open(os.path.join(cdir, f), 'rb').read())
+            bs = os.path.join(REPO, 'feel-number', 'build.rs')
+            h.update(open(bs, 'rb').read() if os.path.exists(bs) else b'')
+            stamp = os.path.join(TARGET, '.decnumber-%s.sha256' % ('release' if release else 'debug'))
+            if os.path.isdir(TARGET) and (open(stamp).read() if os.path.exists(stamp) else '') != h.hexdigest():
+                sh(['cargo', 'clean', '--offline', '-p', 'dmntk-feel-number'] + (['--release'] if release else []), cwd=HARNESS, env=env, timeout=600)
             cmd = ['cargo', 'build', '--offline'] + (['--release'] if release else [])
             rc, out = sh(cmd, cwd=HARNESS, env=env, timeout=3000)
             if rc != 0 and 'lock file' in out:
                 sh(['cp', os.path.join(REPO, 'Cargo.lock'), lockp])
                 rc, out = sh(cmd, cwd=HARNESS, env=env, timeout=3000)
+            if rc == 0:
+                open(stamp, 'w').write(h.hexdigest())
         if rc != 0:
             errs = [l for l in out.split('\n') if l.startswith('error')]
             raise RuntimeError('harness build failed (the working tree of /repo does not compile?):\n' + '\n'.join(errs[:10]) + '\n' + out[-1500:])
